@@ -130,6 +130,10 @@ def run(facts, rep, ctx):
     bpp(facts, rep, R3)
     overflow(facts, rep, R4)
     etc_selection(facts, rep, R5)
+    R7 = rep.rule("R19.7", "tile walk: output position polynomial of the 8x8 Z-order walk and of the ETC1 tile/block/pixel nest", floor=2)
+    tile_walk(facts, rep, R7)
+    R6 = rep.rule("R19.6", "ETC1 differential delta: 3-bit two's-complement sign extension (exhaustive over the 8 inputs)", floor=1)
+    sign_extension(facts, rep, R6)
 
 
 def color_writes(p):
@@ -478,6 +482,209 @@ def overflow(facts, rep, R4):
         rep.inconc(R4, "no payload-derived arithmetic found in the decoders")
     elif flagged == 0:
         rep.ok(R4, {"payload_arithmetic_sites": sites, "all_discharged_by_interval": True})
+
+
+def sign_extension(facts, rep, R6):
+    """The helper that turns the 3-bit differential delta into a signed value: decision table over all 8 inputs."""
+    from summ import Evaluator, Unknown, Panic
+    e = facts.body(ETC)
+    if e is None:
+        rep.inconc(R6, "etc1::decode not found")
+        return
+    helpers = {}
+    for bb, t in e.calls():
+        nm = callee_names(t)[1] or ""
+        cb = facts.body(nm)
+        if cb is not None and cb.argc == 2 and cb.local_ty(1) == "u8" and cb.local_ty(2) == "u8" and cb.local_ty(0) == "u8":
+            bits = e.term_of_operand(t["args"][1])
+            if bits[0] == "const":
+                helpers.setdefault((cb.name, bits[1]), 0)
+                helpers[(cb.name, bits[1])] += 1
+    if not helpers:
+        # inlined: not decided here
+        rep.inconc(R6, "delta sign-extension helper not found among the callees of etc1::decode")
+        return
+    E = Evaluator(facts)
+    for (hn, bits), uses in sorted(helpers.items()):
+        hb = facts.body(hn)
+        bad = []
+        for v in range(1 << bits):
+            want = v if v < (1 << (bits - 1)) else (v - (1 << bits)) & 0xFF
+            try:
+                got = E.call_body(hb, [v, bits])
+            except Panic as p:
+                got = "panic: " + p.what
+            except Unknown as u:
+                rep.inconc(R6, "%s: %s" % (hn, u))
+                got = None
+                break
+            if got != want:
+                bad.append((v, got, want))
+        if got is None:
+            continue
+        if bad:
+            v, g, w = bad[0]
+            rep.violation(R6, hn, "sign-extend", "%s(0b%s, %d) yields %s, two's-complement sign extension gives %s (%d of %d inputs differ): a differential delta is decoded with the wrong sign" % (hn.rsplit("::", 1)[-1], format(v, "03b"), bits, g, w, len(bad), 1 << bits), "%s:%s" % (hb.file, hb.line))
+        else:
+            rep.ok(R6, {"helper": hn, "bits": bits, "inputs": 1 << bits, "uses": uses})
+    # the three deltas are applied to r, g, b respectively with a wrapping add of the extended value
+    adds = [t for bb, t in e.calls() if (callee_names(t)[1] or "").endswith("<impl u8>::wrapping_add")]
+    if len(adds) >= 3:
+        rep.ok(R6, {"delta_application": "base.wrapping_add(sign_extend(delta)) x%d" % len(adds)})
+    else:
+        rep.count("delta_additions_not_wrapping", 1)
+
+
+def tile_walk(facts, rep, R7):
+    """Output position of a decoded pixel as a polynomial over the loop counters, the in-tile coordinates
+    and the image width, compared with the 3DS tiled layouts."""
+    from binser import poly, fmt_poly, for_loops, enclosing_loops
+    # ---- 8x8 Z-order tiles ------------------------------------------------------------------------
+    b = facts.body("mila::texture_decoder::decode_rgba_pixel_data")
+    if b is None:
+        rep.inconc(R7, "tile walk decode_rgba_pixel_data not found")
+    else:
+        where = "%s:%s" % (b.file, b.line)
+        nv = b.named_view()
+        loops = [lp for lp in for_loops(nv) if lp["kind"] == "for"]
+        # width/height: parameters 2 and 3 of the (data, width, height, format) signature shared with decode_pixel_data
+        W, H = ("param", 2, b.local_name(2)), ("param", 3, b.local_name(3))
+
+        def loop_role(atom):
+            """TX / TY / P for an atom that is the item of a counted loop."""
+            for x in walk(atom):
+                if x[0] == "call" and x[1].endswith("::next"):
+                    rng = [y for y in walk(x) if y[0] == "agg" and y[2] and y[2].endswith("ops::Range")]
+                    if rng:
+                        hi = rng[0][4][1]
+                        if hi[0] == "const":
+                            return "P%d" % hi[1]
+                        if hi[0] == "bin" and hi[1] == "Div" and hi[3][0] == "const" and hi[3][1] == 8:
+                            return "TX" if strip_refs(hi[2]) == W else ("TY" if strip_refs(hi[2]) == H else "?")
+            return None
+
+        def classify(atom):
+            a = atom
+            if a == norm(W):
+                return "W"
+            if a == norm(H):
+                return "H"
+            if a[0] == "local":
+                d = nv.definition(a[1]) if len(nv.defs().get(a[1], [])) == 1 else None
+                if d is not None:
+                    r = loop_role(d)
+                    if r:
+                        return r
+                    dd = d
+                    while dd[0] == "cast":
+                        dd = dd[1]
+                    if dd[0] == "bin" and dd[1] == "Rem" and dd[3][0] == "const" and dd[3][1] == 8 and any(y[0] == "const" and isinstance(y[1], str) and y[1].endswith("TILE_ORDER") for y in walk(dd)):
+                        return "X"
+                    if dd[0] == "bin" and dd[1] == "Div" and dd[3][0] == "const" and dd[3][1] == 8 and any(y[0] == "const" and isinstance(y[1], str) and y[1].endswith("TILE_ORDER") for y in walk(dd)):
+                        return "Y"
+            r = loop_role(a)
+            if r:
+                return r
+            if a[0] == "bin" and a[1] == "Rem":
+                return "X"
+            if a[0] == "bin" and a[1] == "Div":
+                return "Y"
+            return "?" + fmt(a)[:30]
+        target = None
+        for bb, t in nv.calls():
+            nm = callee_names(t)[1] or ""
+            if "ops::IndexMut" in nm and t["args"]:
+                rg = nv.term_of_operand(t["args"][1])
+                if rg[0] == "agg" and rg[2] and rg[2].endswith("ops::Range") and len(enclosing_loops(loops, bb)) >= 3:
+                    target = rg[4][0]
+        if target is None:
+            rep.inconc(R7, "output slice of the tile walk not found")
+        else:
+            p = poly(target, nv)
+            if p is None:
+                rep.inconc(R7, "tile-walk index is not polynomial")
+            else:
+                got = {}
+                for m, c in p.items():
+                    key = tuple(sorted(classify(a) for a in m))
+                    got[key] = got.get(key, 0) + c
+                want = {("X",): 4, ("TX",): 32, ("W", "Y"): 4, ("TY", "W"): 32}
+                if got == want:
+                    rep.ok(R7, {"fn": b.name, "index": "4*(8*tile_x + x + (8*tile_y + y)*width)"})
+                else:
+                    rep.violation(R7, b.name, "tile-index", "pixel (x,y) of tile (tile_x,tile_y) is stored at %s; the 8x8 tiled layout puts it at 4*(8*tile_x + x + (8*tile_y + y)*width)" % {"*".join(k) or "1": v for k, v in sorted(got.items())}, where)
+    # ---- ETC1: 8x8 tiles of 2x2 blocks of 4x4 pixels -----------------------------------------------
+    e = facts.body(ETC)
+    if e is None:
+        return
+    where = "%s:%s" % (e.file, e.line)
+    nv = e.named_view()
+    loops = [lp for lp in for_loops(nv) if lp["kind"] == "for"]
+
+    def depth_of(lp):
+        return len([l2 for l2 in loops if lp["head"] in l2["blocks"]])
+    Wp = ("param", 2, e.local_name(2))
+    by_depth = sorted(loops, key=depth_of)
+    roles = {}
+    names = ["TY", "TX", "BY", "BX", "PY", "PX"]
+    if len(by_depth) >= 6:
+        for nme, lp in zip(names, by_depth[:6]):
+            roles[lp.get("next_bb")] = nme
+
+    def classify_e(a):
+        if a == norm(Wp):
+            return "W"
+        term = a
+        if a[0] == "local" and len(nv.defs().get(a[1], [])) == 1:
+            term = nv.definition(a[1])
+        for x in walk(term):
+            if x[0] == "call" and x[1].endswith("::next") and len(x) > 3 and x[3] in roles:
+                return roles[x[3]]
+        # norm() drops block ids: fall back on the raw term of named locals only
+        return "?" + fmt(a)[:30]
+    tgt = None
+    for bb, t in nv.calls():
+        nm = callee_names(t)[1] or ""
+        if "ops::IndexMut" in nm and t["args"] and len(enclosing_loops(loops, bb)) >= 6:
+            ix = nv.term_of_operand(t["args"][1])
+            if ix[0] == "local":
+                tgt = ix
+                break
+    if tgt is None or len(roles) != 6:
+        rep.inconc(R7, "ETC1 pixel position / six nested loops not recognised")
+        return
+    # keep block ids: build the polynomial from un-normed atoms by expanding manually
+    def poly_raw(t, depth=0):
+        from binser import poly as _p
+        return _p(t, nv)
+    p = poly_raw(tgt)
+    if p is None:
+        rep.inconc(R7, "ETC1 pixel position is not polynomial")
+        return
+    got = {}
+    for m, c in p.items():
+        key = tuple(sorted(classify_named(nv, a, roles, Wp) for a in m))
+        got[key] = got.get(key, 0) + c
+    want = {("PX",): 4, ("BX",): 16, ("TX",): 32, ("PY", "W"): 4, ("BY", "W"): 16, ("TY", "W"): 32}
+    if got == want:
+        rep.ok(R7, {"fn": e.name, "index": "4*((8*ty + 4*by + py)*width + 8*tx + 4*bx + px)"})
+    else:
+        rep.violation(R7, e.name, "etc-index", "ETC1 pixel position is %s; the layout is 4*((8*tile_y + 4*block_y + pixel_y)*width + 8*tile_x + 4*block_x + pixel_x)" % {"*".join(k) or "1": v for k, v in sorted(got.items())}, where)
+
+
+def classify_named(nv, a, roles, Wp):
+    if a == norm(Wp):
+        return "W"
+    if a[0] == "local":
+        ds = nv.defs().get(a[1], [])
+        if len(ds) == 1:
+            # the loop counter local is defined in the block right after its loop's next() call
+            bi = ds[0][0]
+            d = nv.definition(a[1])
+            for x in walk(d):
+                if x[0] == "call" and x[1].endswith("::next") and len(x) > 3 and x[3] in roles:
+                    return roles[x[3]]
+    return "?" + fmt(a)[:30]
 
 
 def etc_selection(facts, rep, R5):
